@@ -8,3 +8,4 @@ import BU.Properties.C09
 #print axioms C09.sec_standard_form
 #print axioms C09.sec_roundtrip
 #print axioms C09.offcurve_rejected
+#print axioms C09.sec_roundtrip_unconditional
